@@ -247,7 +247,21 @@ class Tracer:
             restored = bool(np.array_equal(x0, dae.x) and np.array_equal(y0, dae.y) and np.array_equal(f0, dae.f))
             inc_last = abs(_f(tds.mis_inc[-1])) if getattr(tds, "mis_inc", None) else None
             nan_state = bool(np.isnan(dae.x).any() or np.isnan(dae.y).any())
-            T.ev.append(dict(e="step", t=t, h=h, ret=bool(r), niter=int(tds.niter), conv=bool(tds.converged),
+            # the mass matrix the step was taken with (dae.Tf in the residual, TDS.Teye in the iteration matrix) carries the
+            # time constants the models have now (they can be altered by an event or between two segments)
+            mass_current = True
+            if r and dae.n and not np.isnan(np.asarray(dae.Tf, dtype=float)).any():
+                Tm = np.ones(dae.n)
+                for mdl in ss.exist.pflow_tds.values():
+                    if mdl.n == 0:
+                        continue
+                    for st in mdl.states.values():
+                        if st.t_const is not None:
+                            Tm[np.asarray(st.a, dtype=int)] = np.asarray(st.t_const.v, dtype=float)
+                teye = tds.Teye
+                td = np.array([teye[i, i] for i in range(dae.n)]) if teye is not None and teye.size[0] == dae.n else Tm
+                mass_current = bool(np.array_equal(np.asarray(dae.Tf, dtype=float), Tm) and np.array_equal(td, Tm))
+            T.ev.append(dict(e="step", t=t, h=h, ret=bool(r), niter=int(tds.niter), conv=bool(tds.converged), mass_current=mass_current,
                              busted=bool(tds.busted), chatter=bool(tds.chatter), restored=restored,
                              inc_last=inc_last, tol=_f(T.tol0), max_iter=int(tds.config.max_iter),
                              nan_state=nan_state, planned_fail=bool(T._planned), last_conv=bool(tds.last_converged),
@@ -617,7 +631,7 @@ def encode_trace(res, tid, sc):
                             ret=e["ret"], niter=min(e["niter"], 1000), cls=cls, conv=e["conv"], busted=e["busted"],
                             chatter=e["chatter"], restored=e["restored"], inc_ok=bool(inc_ok or e["chatter"]),
                             niter_le_max=bool(e["niter"] <= e["max_iter"] + 1), nan_state=e["nan_state"],
-                            planned_fail=e["planned_fail"], last_conv=e["last_conv"]))
+                            planned_fail=e["planned_fail"], last_conv=e["last_conv"], mass_current=e.get("mass_current", True)))
         elif k == "store":
             out.append(dict(e=k, t=R(e["t"]), row=e["row"], mem=e["mem"], kcount=e["kcount"]))
         elif k == "criteria":
